@@ -12,9 +12,13 @@ KNOWN = os.path.join(VERIF, "known_findings.json")
 TAG_RE = re.compile(r"^\[(C\d\d)\]")
 
 
-def classify(prop, f):
-    """-> (kind, property) where kind in violation|machinery|unwind."""
+def classify(prop, f, harness=""):
+    """-> (kind, property) where kind in violation|machinery|unwind|allowed."""
     d = f["desc"]
+    # the documented capacity-overflow panic (hashbrown's message; griddle's own helper loses its
+    # message under Kani because the crate is no_std) -- never acceptable from try_reserve
+    if (d == "Hash table capacity overflow" or f["fn"].endswith("griddle::raw::capacity_overflow")) and "try_reserve" not in harness:
+        return "allowed", prop
     m = TAG_RE.match(d)
     if m:
         return "violation", m.group(1)
@@ -126,10 +130,12 @@ def run_property(prop, tier, seed, jobs, wd, only=None, keep_logs=None, t0=None)
         if not r["covers"].get("reach: end of harness", False):
             machinery.append((r, "vacuous: the end of the harness is unreachable"))
         for f in r["failures"]:
-            kind, p = classify(prop, f)
+            kind, p = classify(prop, f, r["harness"])
             if kind == "violation":
                 k = known_match(known, p, r["harness"], f["desc"])
                 (known_hits if k else violations).append((r, f, p, k))
+            elif kind == "allowed":
+                pass
             elif kind == "unwind":
                 inconclusive.append((r, "unwinding bound too small: " + f["desc"]))
             else:
